@@ -308,10 +308,20 @@ def _enum_run(part, ctx, tier, shard, nshards):
     return failures
 
 
+WALL_BUDGET = {"quick": 600, "thorough": 4 * 3600}
+
+
+def _on_alarm(signum, frame):
+    raise HarnessError("wall-clock budget overrun (inconclusive, not a violation)")
+
+
 def worker(args):
     prop, part_name, tier, seed, shard, nshards, n_examples = args
     t0 = time.time()
     try:
+        import signal
+        signal.signal(signal.SIGALRM, _on_alarm)
+        signal.alarm(int(os.environ.get("VERIF_WALL_BUDGET", WALL_BUDGET[tier])))
         load()
         mod = importlib.import_module(f"checks.{prop.lower()}")
         part = {p.name: p for p in mod.parts(tier)}[part_name]
